@@ -402,6 +402,12 @@ func chainMode(r *sim.Rng, nChains, nBlocks int, cw *sim.CaseWriter, outDir stri
 					}
 				}
 			}
+			if b == 3 {
+				// governance lowers the number of committees a validator may serve: every validator above the limit is re-conformed
+				// (its committees cut down, the per-committee tallies with them)
+				spec.Txs = append(spec.Txs, sim.TxBytes(fsm.NewChangeParamTxUint64(sim.BLSKey(0).Priv, fsm.ParamSpaceVal, fsm.ParamMaxCommittees, r.Pick(1, 2), h, h+5, 1, 1, 10000, h, "fewer-committees")))
+				st.TxOutcome["max-committees-lowered"]++
+			}
 			if b == 1 {
 				// both validators that share an output address start unstaking in this block: they finish in one block
 				for _, i := range []int{3, 4} {
